@@ -157,7 +157,10 @@ def r_printer(P, rep):
                     A.ob('R19.5', '%s:%s:pair-predicate-is-asked-about-the-token-written-before' % (MU, fn), okp,
                          '%s() is asked about token %d of the output together with %s instead of token %d, the one written immediately before it: the decision to keep the two apart is taken for another pair (a stale or skipped predecessor - e.g. the first token of a line, a spaced token or the first token of the output is never remembered), so `-` at the beginning of a line followed by a macro that expands to `-i` is printed `--i`' % (
                              c[1], i, ', '.join(strip_ids(getattr(o, 'label', None) or repr(o)) for o in others) or 'no other token', i - 1), '%s:%d' % (MU, c[3]), facts)
-                if i > 0 and isinstance(ab, int) and ab == 0 and isinstance(hs, int) and hs == 0 and not sep:
+                if i > 0 and isinstance(ab, int) and ab == 0 and isinstance(hs, int) and hs == 0 and not sep and not asked_T \
+                        and _spelling_constrained(it, u, ctx, (toks[i - 1], T)):
+                    pass    # the path itself has looked at the length/characters/kind of the two tokens: whether that suffices is R19.4's table
+                elif i > 0 and isinstance(ab, int) and ab == 0 and isinstance(hs, int) and hs == 0 and not sep:
                     npair['glued'] += 1
                     A.ob('R19.5', '%s:%s:unflagged-token-glued-only-after-the-pair-predicate-was-asked' % (MU, fn),
                          any(any(as_obj(it, a) is toks[i - 1] for a in c[2]) for c in asked_T),
@@ -189,6 +192,21 @@ def r_printer(P, rep):
             if v == 0:
                 rep.undecided('R19.5', '%s:%s:no-%s-case' % (MU, fn, k), 'print_tokens calls the pair predicate(s) %s but no explored path shows the "%s" case' % ('/'.join(pairh), k), where=where)
     return protect
+
+
+def _spelling_constrained(it, u, ctx, toks):
+    """has this path compared the length, the characters or (beyond `is not EOF`) the kind of one of these tokens?"""
+    keys = [repr(k) for k in list(ctx.bounds) + list(ctx.neq)]
+    nk = len(set(v for k, v in u.enums.items() if k.startswith('TK_')))
+    for t in toks:
+        for f in ('len', 'loc'):
+            lab = '%s.%s' % (t.label, f)
+            if any(lab in k for k in keys):
+                return True
+        kv = t.fields.get('kind')
+        if isinstance(kv, View) and len(kv.cell.cands) < nk - 1:
+            return True
+    return False
 
 
 def r_separation(P, rep):
